@@ -13,6 +13,8 @@ import (
 	"strings"
 	"sync"
 
+	"github.com/renbou/grpcbridge/bridgedesc"
+	"github.com/renbou/grpcbridge/reflection"
 	"google.golang.org/protobuf/proto"
 	"google.golang.org/protobuf/reflect/protodesc"
 	"google.golang.org/protobuf/reflect/protoreflect"
@@ -342,6 +344,39 @@ type Built struct {
 	Types *dynamicpb.Types
 	Pkg   string
 	File  protoreflect.FileDescriptor
+	// Prod is the bridgedesc.Target the PRODUCTION glue builds from the same file descriptors
+	// (reflection.parseFileDescriptors: what a reflection resolver hands to routing and transcoding).
+	// The real transcoder runs with Prod's resolvers; Files/Types above stay the harness's own, independent
+	// resolvers (used by the body-decode oracle). nil in configuration B.
+	Prod *bridgedesc.Target
+}
+
+// prodMsg returns the request message descriptor as the production target's file resolver knows it.
+func (b *Built) prodMsg(name string) protoreflect.MessageDescriptor {
+	if b.Prod == nil {
+		return b.Msg(name)
+	}
+	full := protoreflect.FullName(name)
+	if !isWKT(name) {
+		full = protoreflect.FullName(b.Pkg + "." + name)
+	}
+	d, err := b.Prod.FileResolver.FindDescriptorByName(full)
+	if err != nil {
+		panic(fmt.Sprintf("prod message %s: %v", full, err))
+	}
+	return d.(protoreflect.MessageDescriptor)
+}
+
+// prodTarget builds the target through the production path from the descriptor set a reflection server
+// would send: the target's own copies of the google/protobuf files it imports, then its own file.
+func prodTarget(userFile *descriptorpb.FileDescriptorProto) (*bridgedesc.Target, error) {
+	fds := &descriptorpb.FileDescriptorSet{}
+	for _, f := range wktFiles {
+		fds.File = append(fds.File, protodesc.ToFileDescriptorProto(f))
+	}
+	fds.File = append(fds.File, userFile)
+	t, _, err := reflection.VerifParseFileDescriptors("c04", nil, fds)
+	return t, err
 }
 
 func (b *Built) Msg(name string) protoreflect.MessageDescriptor {
@@ -369,8 +404,8 @@ var (
 // build materialises the schema in configuration cfg:
 //
 //	"A": private registries only — nothing of the schema is in protoregistry.Global* (production situation)
-//	"B": the same file is additionally registered in protoregistry.GlobalFiles/GlobalTypes and the
-//	     request message is built from the registered descriptors
+//	"B": the same file is additionally registered in protoregistry.GlobalFiles/GlobalTypes (the target
+//	     itself is built by the production path from its own files, as in A)
 //	"C": private registries, while protoregistry.Global* holds a DECOY file with the same full names
 //	     but different enum numbers / value names and empty messages
 func (s *Schema) build(cfg string) (b *Built, err error) {
@@ -418,7 +453,11 @@ func (s *Schema) build(cfg string) (b *Built, err error) {
 				}
 			}
 		}
-		return &Built{Files: files, Types: dynamicpb.NewTypes(files), Pkg: pkg, File: fd}, nil
+		prod, err := prodTarget(s.fileProto(pkg, false))
+		if err != nil {
+			return nil, err
+		}
+		return &Built{Files: files, Types: dynamicpb.NewTypes(files), Pkg: pkg, File: fd, Prod: prod}, nil
 	case "B":
 		pkg := "rb" + h
 		var fd protoreflect.FileDescriptor
@@ -433,7 +472,22 @@ func (s *Schema) build(cfg string) (b *Built, err error) {
 				return nil, err
 			}
 		}
-		return &Built{Files: protoregistry.GlobalFiles, Types: dynamicpb.NewTypes(protoregistry.GlobalFiles), Pkg: pkg, File: fd}, nil
+		// the target itself is still what production builds from the target's own files; the same types are
+		// ADDITIONALLY present in the process-global registry
+		files := freshWKTFiles()
+		pfd, err := protodesc.NewFile(s.fileProto(pkg, false), files)
+		if err != nil {
+			return nil, err
+		}
+		if err := files.RegisterFile(pfd); err != nil {
+			return nil, err
+		}
+		prod, err := prodTarget(s.fileProto(pkg, false))
+		if err != nil {
+			return nil, err
+		}
+		_ = fd
+		return &Built{Files: files, Types: dynamicpb.NewTypes(files), Pkg: pkg, File: pfd, Prod: prod}, nil
 	}
 	return nil, fmt.Errorf("bad cfg")
 }
